@@ -177,7 +177,7 @@ def run(ck):
         cause = "?"
         t = b.blocks[a]["term"]
         if t["t"] == "switch":
-            e = b.expr(t["on"])
+            e = b.expr(t["on"], at=a)
             causes = set()
 
             def trace(pl, depth=0):
